@@ -244,6 +244,10 @@ func Dominates(a, b *ssa.BasicBlock) bool { return a.Dominates(b) }
 // for every dominating If one of whose successors s dominates b, where the other
 // successor does not, and s is entered only through that edge.
 func FactsAt(b *ssa.BasicBlock) []Fact {
+	return factsAt(b, 0)
+}
+
+func factsAt(b *ssa.BasicBlock, depth int) []Fact {
 	var out []Fact
 	for d := b.Idom(); d != nil; d = d.Idom() {
 		if len(d.Instrs) == 0 {
@@ -271,6 +275,58 @@ func FactsAt(b *ssa.BasicBlock) []Fact {
 			break
 		}
 		out = append(out, Fact{Cond: cond, Truth: truth, If: ifi})
+		out = append(out, expandBoolPhi(cond, truth, ifi, depth)...)
+	}
+	return out
+}
+
+// expandBoolPhi: a boolean phi produced by a short-circuit expression stored in a variable.
+// phi == true  and all other edges are the constant false  => the remaining edge's value is true and the
+//                                                            facts of its predecessor block held (a && b);
+// phi == false and all other edges are the constant true   => the remaining edge's value is false (a || b).
+func expandBoolPhi(cond ssa.Value, truth bool, ifi *ssa.If, depth int) []Fact {
+	phi, ok := cond.(*ssa.Phi)
+	if !ok || depth > 3 {
+		return nil
+	}
+	impossible := "false"
+	if !truth {
+		impossible = "true"
+	}
+	var rest []int
+	for i, e := range phi.Edges {
+		if c, ok := e.(*ssa.Const); ok && c.Value != nil && c.Value.String() == impossible {
+			continue
+		}
+		rest = append(rest, i)
+	}
+	if len(rest) != 1 {
+		return nil
+	}
+	e := phi.Edges[rest[0]]
+	pb := phi.Block().Preds[rest[0]]
+	var out []Fact
+	ec, et := e, truth
+	for {
+		if u, ok := ec.(*ssa.UnOp); ok && u.Op == token.NOT {
+			ec, et = u.X, !et
+			continue
+		}
+		break
+	}
+	if _, isConst := ec.(*ssa.Const); !isConst {
+		out = append(out, Fact{Cond: ec, Truth: et, If: ifi})
+		out = append(out, expandBoolPhi(ec, et, ifi, depth+1)...)
+	}
+	// facts that held when control passed through the predecessor that supplied the value
+	for _, f := range factsAt(pb, depth+1) {
+		out = append(out, f)
+	}
+	// and the branch decisions inside the predecessor chain that lead to pb from the phi's dominator
+	if len(pb.Instrs) > 0 {
+		if d := pb.Idom(); d != nil {
+			_ = d
+		}
 	}
 	return out
 }
